@@ -43,6 +43,9 @@ Print Assumptions C03_server_opens_client.
 (* Dual: whatever a conformant server seals for the client - any msg_id of server parity, any
    padding bytes [pad] (fewer than 16, making the plaintext a multiple of 16) - the client opens
    to exactly those fields.  Every key of at least 136 bytes. *)
+(* msg_id ranges over ALL 64-bit patterns < 2^64, i.e. over every int64 including the negative ones
+   (bit 63 set); [server_parity] reads the two low bits of the pattern, which is what Go's "& 3"
+   does on the signed value (C04_parity_is_low_bits_of_signed_id). *)
 Theorem C03_client_opens_server : forall sha1 ige_e ige_d,
   sha1_20 sha1 -> ige_keeps_length ige_e -> ige_inverts ige_e ige_d ->
   forall key salt sid msgid seq body pad,
@@ -151,3 +154,10 @@ Example C03_client_opens_a_server_packet :
                     (seal_server sha1 x_ige_e test_key 7 9 125 3 test_body (hex "a1b2c3d4e5f60718aa")))
   = Ok (7, 9, 125, 3, test_body).
 Proof. vm_compute. reflexivity. Qed.
+
+(* a msg_id that is negative as int64 (bit 63 set), server parity: opened all the same *)
+Example C03_client_opens_negative_msg_id :
+  omap fields_of (open_client sha1 x_ige_d test_key
+                    (seal_server sha1 x_ige_e test_key 7 9 (2 ^ 64 - 3) 3 test_body (hex "a1b2c3d4e5f60718aa")))
+  = Ok (7, 9, 2 ^ 64 - 3, 3, test_body) /\ server_parity (2 ^ 64 - 3) = true /\ to_i64 (2 ^ 64 - 3) = (-3)%Z.
+Proof. vm_compute. repeat split; reflexivity. Qed.
